@@ -78,16 +78,23 @@ pub struct HashMap<K, V> {
     pub val: Option<V>,
     pub looked: core::cell::Cell<Option<K>>,
     pub nlook: core::cell::Cell<u8>,
+    /// the (single) insertion of this unit
+    pub inserted: Option<(K, V)>,
+    pub ninsert: u8,
 }
 impl<K: Copy, V> HashMap<K, V> {
     pub fn new() -> Self {
-        HashMap { val: None, looked: core::cell::Cell::new(None), nlook: core::cell::Cell::new(0) }
+        HashMap { val: None, looked: core::cell::Cell::new(None), nlook: core::cell::Cell::new(0), inserted: None, ninsert: 0 }
     }
     pub fn with(val: Option<V>) -> Self {
-        HashMap { val, looked: core::cell::Cell::new(None), nlook: core::cell::Cell::new(0) }
+        HashMap { val, looked: core::cell::Cell::new(None), nlook: core::cell::Cell::new(0), inserted: None, ninsert: 0 }
     }
-    pub fn insert(&mut self, _k: K, v: V) -> Option<V> {
-        self.val.replace(v)
+    pub fn insert(&mut self, k: K, v: V) -> Option<V> {
+        self.inserted = Some((k, v));
+        if self.ninsert < 250 {
+            self.ninsert += 1;
+        }
+        None
     }
     pub fn get(&self, k: &K) -> Option<&V> {
         self.looked.set(Some(*k));
